@@ -8,9 +8,11 @@ def bad : Sexp := .list [.atom "bad-request"]
 /-- `asis` (the code's current flags; `repaired` is an alias) | `aswas` (the pinned snapshot before the
 fixes), optionally suffixed `-rev` (iterate Go maps in reverse order) -/
 def defectsOfAtom : String → Option (NDefects × (Table → Table))
-  | "asis" | "repaired" => some (.asIs, id)
+  | "asis" => some (.asIs, id)
+  | "repaired" => some (.repaired, id)
   | "aswas" => some (.asWas, id)
-  | "asis-rev" | "repaired-rev" => some (.asIs, List.reverse)
+  | "asis-rev" => some (.asIs, List.reverse)
+  | "repaired-rev" => some (.repaired, List.reverse)
   | "aswas-rev" => some (.asWas, List.reverse)
   | _ => none
 
